@@ -83,6 +83,29 @@ def step_block(body, b, facts, variants_of=None):
             ff = f.get(src) if src is not None else None
             if ff and ff[0] == 'variant':
                 newf = ('bool', {'is_some': ff[1] == 'Some', 'is_none': ff[1] == 'None', 'is_ok': ff[1] == 'Ok', 'is_err': ff[1] == 'Err'}[nm])
+        # emptiness of a Vec accumulator: Vec::new() is empty, push makes it non-empty, is_empty() reads the abstract state
+        def _ref_target(a):
+            q = op_place(a)
+            if not q or not place_is_local(q):
+                return None
+            sd = body.single_def_at(q['l'], q.get('@'), q.get('@i')) if hasattr(body, 'single_def_at') else body.single_def(q['l'])
+            if sd and sd[2] == 'assign' and sd[3]['rv']['k'] == 'ref' and place_is_local(sd[3]['rv']['place']):
+                return sd[3]['rv']['place']['l']
+            return None
+        skip_pop = set()
+        cdef = (t['callee'].get('def') or '') + (t['callee'].get('impl_self') or '')
+        if nm in ('new', 'with_capacity') and 'Vec' in cdef and place_is_local(d):
+            newf = ('vec', 'empty')
+        elif nm in ('push', 'insert', 'extend_from_slice') and 'Vec' in cdef and t['args']:
+            tgt = _ref_target(t['args'][0])
+            if tgt is not None:
+                f[tgt] = ('vec', 'nonempty')
+                skip_pop.add(tgt)
+        elif nm == 'is_empty' and t['args'] and newf is None:
+            tgt = _ref_target(t['args'][0])
+            ff = f.get(tgt) if tgt is not None else None
+            if ff and ff[0] == 'vec':
+                newf = ('bool', ff[1] == 'empty')
         if place_is_local(d):
             if newf:
                 f[d['l']] = newf
@@ -90,6 +113,8 @@ def step_block(body, b, facts, variants_of=None):
                 f.pop(d['l'], None)
         # a call taking &mut local may change it
         for a in t['args']:
+            if _ref_target(a) in skip_pop:
+                continue
             q = op_place(a)
             if q and place_is_local(q):
                 sd = body.single_def(q['l'])
